@@ -263,6 +263,7 @@ func cmdCheck(args []string) {
 	exit := 0
 	var violLines, knownLines, inconcl []string
 	nativeRuns := 0
+	allLabels, allReached := map[string]bool{}, map[string]bool{}
 	for _, e := range entries {
 		p := pkgs[e.Pkg]
 		if p == nil {
@@ -309,8 +310,9 @@ func cmdCheck(args []string) {
 			inconcl = append(inconcl, fmt.Sprintf("%s: %s (x%d)", e.Func, why, n))
 		}
 		for _, l := range res.ReachLabels {
-			if res.Reached[l] == 0 {
-				inconcl = append(inconcl, fmt.Sprintf("%s: VACUOUS: witness %q never reached", e.Func, l))
+			allLabels[l] = true
+			if res.Reached[l] > 0 {
+				allReached[l] = true
 			}
 		}
 		seenLabel := map[string]bool{}
@@ -349,6 +351,18 @@ func cmdCheck(args []string) {
 				v.Native = "engine concrete re-execution only (harness uses environment models)"
 			}
 			violLines = append(violLines, fmt.Sprintf("VIOLATION property=%s replay=%s  # %s: %s [%s] facts=%v", *prop, rp, e.Func, v.Label, v.Native, v.Facts))
+		}
+	}
+	if *only == "" {
+		var ls []string
+		for l := range allLabels {
+			if !allReached[l] {
+				ls = append(ls, l)
+			}
+		}
+		sort.Strings(ls)
+		for _, l := range ls {
+			inconcl = append(inconcl, fmt.Sprintf("VACUOUS: witness %q was not reached by any harness of this run", l))
 		}
 	}
 	for _, l := range knownLines {
